@@ -164,7 +164,7 @@ def check(ctx):
     ok = ok and not rebinds
     ctx.ob("DELEG.modes.getcycle", gc, "getcycle = _toposort(d, keys=keys, returncycle=True) with the caller's keys, unmodified", ok, "" if ok else "the requested start keys are replaced (e.g. when falsy): cycles that are not reachable from the request are reported")
     isd = mod.func("isdag")
-    ok = any(Pat("not getcycle(d, keys)").match(r.value) is not None for r in returns(isd))
+    ok = (all(Pat("not getcycle(d, keys)").match(r.value) is not None for r in returns(isd)) and bool(returns(isd)))
     ctx.ob("DELEG.modes.isdag", isd, "isdag = not getcycle(d, keys)", ok)
 
 
